@@ -1027,8 +1027,11 @@ def r32_axioms(run):
     a, b = z3.Reals('a!r32 b!r32')
     # (idempotence is structural -- cast32 of a term that already is an r32 application returns it -- so that no quantified axiom creates
     # new r32 terms: no matching loops)
-    run.axiom(z3.ForAll([a], z3.And(z3.Implies(z3.And(z3.IsInt(a), a <= TWO24, a >= -TWO24), r32(a) == a),
-                                    z3.Implies(a >= 0, r32(a) >= 0), z3.Implies(a <= 0, r32(a) <= 0)), patterns=[r32(a)]))
+    # (exactness is stated for syntactically integer arguments ToReal(k) only: IsInt over real variables inside quantifiers sends the
+    # arithmetic solver into non-terminating case splits)
+    k = z3.Int('k!r32')
+    run.axiom(z3.ForAll([k], z3.Implies(z3.And(k <= TWO24, k >= -TWO24), r32(z3.ToReal(k)) == z3.ToReal(k)), patterns=[r32(z3.ToReal(k))]))
+    run.axiom(z3.ForAll([a], z3.And(z3.Implies(a >= 0, r32(a) >= 0), z3.Implies(a <= 0, r32(a) <= 0)), patterns=[r32(a)]))
     run.axiom(z3.ForAll([a, b], z3.Implies(a <= b, r32(a) <= r32(b)), patterns=[z3.MultiPattern(r32(a), r32(b))]))
 
 
@@ -1048,8 +1051,9 @@ def cast32(it, x):
         apps = run.__dict__.setdefault('r32_apps', [])
         if not any(s.eq(t) for s in apps):
             rt = r32(t)
-            run.assume(z3.And(z3.Implies(z3.And(z3.IsInt(t), t <= TWO24, t >= -TWO24), rt == t),
-                              z3.Implies(t >= 0, rt >= 0), z3.Implies(t <= 0, rt <= 0)))
+            exact = z3.Implies(z3.And(t <= TWO24, t >= -TWO24), rt == t) if (z3.is_to_real(t) or z3.is_int_value(t) or
+                                                                             (z3.is_rational_value(t) and t.denominator_as_long() == 1)) else z3.BoolVal(True)
+            run.assume(z3.And(exact, z3.Implies(t >= 0, rt >= 0), z3.Implies(t <= 0, rt <= 0)))
             for s in apps:
                 run.assume(z3.And(z3.Implies(s <= t, r32(s) <= rt), z3.Implies(t <= s, rt <= r32(s))))
             apps.append(t)
